@@ -166,6 +166,12 @@ def escaping(ctx, S):
                     if p.outcome[1].get("kind") == "explicit" and c and not is_error_class(M, c) and c != "NotImplementedError":
                         cur.add(c)
                 for e in p.events:
+                    if e.kind == "GETITEM" and e["base"][0] == "free" and any(x[0] == "slice" for x in N.walk(e["key"])):
+                        # a module-level table looked up under a *slice of the data* (an 8-byte bit group): the table holds the well-formed groups only,
+                        # any other byte string is a KeyError (the tables indexed by one byte value are total, C20.R4 / C10.R5)
+                        trs = [t for t in p.events if t.kind == "TRY" and t["tid"] in e.trys]
+                        if not any(S.catches(h, "KeyError") for t in trs for h in t["handlers"]):
+                            cur.add("KeyError")
                     if e.kind == "CALL" and e["callee"] == "package" and e["func"][0] == "free" and e["func"][1] in esc:
                         for c in esc[e["func"][1]]:
                             # escapes unless an enclosing handler catches it
